@@ -28,6 +28,8 @@ def gen_scenario(rng: random.Random, focus: str = "any") -> dict:
         sc["time_scale"] = rng.choice([0.5, 2.0, 4.0])
     if focus in ("C09", "C12") and rng.random() < 0.25:
         sc["swap_env"] = True
+    if focus in ("C01", "C04") and rng.random() < 0.15:
+        sc["lazy_points"] = [rng.choice(["clock_resume", "clock_pause", "save_begin"])]
     if focus in ("C04", "any") and rng.random() < 0.2:
         sc["prelaunch"] = True     # start from the final state of a preparatory launch (load path)
     n = rng.randint(1, 6)
@@ -174,6 +176,9 @@ def gen_scenario(rng: random.Random, focus: str = "any") -> dict:
         cl += [["delay", rng.choice([3.0, 9.0])], ["POST", "/api/resume"], ["delay", 6.0], ["POST!", "/api/shutdown"]]
         sc["client"] = cl
         sc["save_condition"] = []
+        if rng.random() < 0.35:
+            # the control thread is descheduled right where it releases / freezes the clock
+            sc["lazy_points"] = [rng.choice(["clock_resume", "clock_pause"])]
         return sc
     if focus == "C08":
         # timed runs over step durations x logging intervals x scales x limits x pause scripts
